@@ -1,6 +1,7 @@
 package transport
 
 import (
+	"context"
 	"github.com/IrineSistiana/mosproxy/internal/dnsmsg"
 	"github.com/IrineSistiana/mosproxy/internal/verifrt"
 )
@@ -282,4 +283,49 @@ func VerifH_C05_LateReply() {
 	rB := <-resB
 	verifrt.Reach("B-returned")
 	verifrt.Assert(rB.m == nil && rB.err != nil, "an exchange the server never answered returns no message (a late reply to an abandoned exchange cannot satisfy it)")
+}
+
+// VerifH_C05_SharedPayload: the transport never modifies the caller's query, so one packed query may be handed to
+// two exchanges at the same time (retries, fan-out to several upstreams). Two concurrent exchanges with the SAME
+// payload slice, a Write that can be overtaken while it is in progress (the fake yields inside Write): both
+// datagrams carry distinct assigned wire IDs, the server's reply to each ID reaches one exchange each, both get the
+// caller's ID back, and the shared payload is never seen modified.
+func VerifH_C05_SharedPayload() {
+	verifrt.Unwind(80)
+	verifrt.SchedBound(2)
+	conn := newVNetConn()
+	isTCP := verifrt.Bool("tcp")
+	t := &PipelineTransport{opts: PipelineOpts{IsTCP: isTCP}}
+	c := newPipelineConn(conn, t)
+	cid := verifrt.U16("cid")
+	m := vQuery12(cid, 9)
+	orig := append([]byte(nil), m...)
+	res := []chan vExRes{make(chan vExRes, 1), make(chan vExRes, 1)}
+	go func() { r, err := c.exchange(context.Background(), m); res[0] <- vExRes{r, err} }()
+	go func() { r, err := c.exchange(context.Background(), m); res[1] <- vExRes{r, err} }()
+	off := 0
+	if isTCP {
+		off = 2
+	}
+	var wire []int
+	for k := 0; k < 2; k++ {
+		q := <-conn.outbox
+		wire = append(wire, int(q[off])<<8|int(q[off+1]))
+		verifrt.Assert(q[off+3] == 9, "payload octets intact on the wire")
+	}
+	verifrt.Assert(wire[0] != wire[1], "the two exchanges go out under distinct wire IDs")
+	verifrt.Assert(wire[0] < 2 && wire[1] < 2, "and these are the IDs the connection assigned (0 and 1)")
+	for k := 0; k < 2; k++ {
+		b := []byte{byte(wire[k] >> 8), byte(wire[k]), 0x80, byte(k + 1), 0, 0, 0, 0, 0, 0, 0, 0}
+		if isTCP {
+			b = append([]byte{0, 12}, b...)
+		}
+		conn.inbox <- b
+	}
+	r0, r1 := <-res[0], <-res[1]
+	verifrt.Reach("both-returned")
+	verifrt.Assert(r0.err == nil && r1.err == nil && r0.m != nil && r1.m != nil, "both exchanges are answered")
+	verifrt.Assert(r0.m.Header.ID == cid && r1.m.Header.ID == cid, "both get the caller's ID back")
+	verifrt.Assert(r0.m.Header.RCode != r1.m.Header.RCode, "each reply reaches exactly one exchange")
+	verifrt.Assert(verifrt.EqBytes(m, orig), "the shared payload is unchanged")
 }
